@@ -17,7 +17,7 @@ flow  {"t":"flow", "species":[labels], "vertices":[labels], "edges":[[eid, tail,
 hist  {"t":"hist", species, vertices, edges, flow (as for flow cases), "ops":[op,...]}  — a call HISTORY on ONE object:
       op = ["R", max_states|None, max_depth|None] is_realizable, ["S", k_max] is_scaled_realizable, ["C"] the certificate
       property, ["B"] build_petri_net_from_flow, ["L", [[eid, f],...]] load_hypergraph_and_flow with a new flow,
-      ["W", max_borrow_each] is_borrow_realizable (oracle only: not modelled).
+      ["W", max_borrow_each] is_borrow_realizable.
       observable: per call the answer and the object's fields right after it (flow, built net places, M0, MT, certificate).
 """
 import itertools
@@ -56,8 +56,6 @@ ASSUMPTIONS = ["species labels do not start with '__ext__' / '__target__' (place
                "max_states, max_depth are non-negative integers"]
 TESTED_NOT_PROVED = ["siphon_persistence_condition (floating-point semiflows; only its siphon input is covered)",
                      "find_siphons/find_traps on caller-supplied networkx graphs (modes bip/und) — compared per run, theorem is about CRNHyperGraph input",
-                     "is_borrow_realizable inside call histories (op W): not modelled; histories containing it are judged by the Python oracle only "
-                     "(answer equals a fresh object's answer; later certificates valid for the loaded flow)",
                      "PetriAnalyzer reused after the analysed hypergraph was edited (compute, add reactions, compute): Python oracle only"]
 
 DEFAULT_MAX_STATES = 100000
@@ -258,7 +256,7 @@ def _hist_call(pr, v, e, op, eidx):
             return [4], None
         if k == "W":
             ok, b = pr.is_borrow_realizable(max_borrow_each=op[1])
-            return [6, bool(ok), [] if b is None else [sorted(b.items())]], (ok, b)
+            return [6, bool(ok), [] if b is None else [[int(b[s_]) for s_ in sorted(b)]]], (ok, b)
     except RuntimeError:
         return [9], "ERR"
     raise AssertionError(op)
@@ -344,8 +342,6 @@ def coq_case(case):
                                            cN(DEFAULT_MAX_STATES if ms is None else ms),
                                            cN(DEFAULT_MAX_DEPTH if md is None else md))
     if t == "hist":
-        if any(op[0] == "W" for op in case["ops"]):
-            return None              # is_borrow_realizable is not modelled: these histories are oracle-only
         sp = sorted(set(case["species"]))
         rank = {s: i for i, s in enumerate(sp)}
         eids = [eid for eid, _, _ in case["edges"]]
@@ -369,6 +365,8 @@ def coq_case(case):
                 ops.append("OpBuild")
             elif k == "L":
                 ops.append("OpLoad %s" % cflow(op[1]))
+            elif k == "W":
+                ops.append("OpBorrow %s" % cnat(op[1]))
         return "run_hist %s %s %s %s" % (clist([cN(rank[s]) for s in case["vertices"]]), ed, cflow(case["flow"]),
                                          clist(ops))
     raise AssertionError(t)
@@ -1355,7 +1353,7 @@ LEVEL_TEXT = ("Machine-checked proof (Coq, 11 theorems, all closed under the glo
               "reaction exactly flow times, is covered at every step (hence never negative) and returns every species to zero; (6) the search fuel "
               "is never exhausted; (7) call histories on one PathwayRealizability object (is_realizable / is_scaled_realizable / certificate / build / "
               "reload in any order): after every history the object holds the flow loaded last, its net and markings are those built from that "
-              "flow, a stored certificate is a correct firing sequence of that flow, and every answer equals the answer of a fresh object "
+              "flow, a stored certificate of a plain search is a correct firing sequence of that flow, and every answer equals the answer of a fresh object "
               "(history independence); (8) completeness within the bounds, proved with the bounds and the existence premise stated on the extended Petri "
               "net the code builds (_partial; the missing converse simulation is named in props/C20.v).  The model is tied to the Python code by "
               "comparing, on every run, predicate values per subset, minimal sets, the built net, verdict, certificate and the number of "
